@@ -84,7 +84,8 @@ fn run<G: RngCore + SeedableRng + Clone>(name: &str, kind: Kind, block_words: us
                 hist += "next_u64; ";
                 if a != e { return Some(format!("{} seed {:02x?}: {}-> {:#018x}, the documented projection of the native stream gives {:#018x}", name, seed.as_mut(), hist, a, e)); }
             } else {
-                let n = if op == 7 { (rnd.next() % 70) as usize } else { (rnd.next() % 18) as usize };
+                let n = if op == 7 && block_words > 0 && rnd.next() % 3 == 0 { 900 + (rnd.next() % 1500) as usize }   // more than a whole block
+                        else if op == 7 { (rnd.next() % 70) as usize } else { (rnd.next() % 18) as usize };
                 let mut buf = vec![0u8; n];
                 g.fill_bytes(&mut buf);
                 let e = t.fill(n);
